@@ -164,7 +164,7 @@ def api_c_type(ti, oi, pos, pv):
 LITERALS = ["'a'", "'a b'", "'A b C'", "'k = v'", "'a =b'", "'x  = y'", "'a;b'", "'--x'", "'#x'", "'/* x */'", "'NULL'", "'select'",
             "'CREATE TABLE z'", "'10%'", "'a.b'", "'a_b-c'", "'(x)'", "'a,b'", "'a, b'", "'a=b'", "'it is'", "''", "'black and white'", "'this Or that'",
             "'not null'", "'a''b''c'", "'it''s'", "'rock ''n'' roll'", "'not for sale'", "'FOR'", "'x for'",
-            "'Order # 5'", "'a # b'", "'#fff'", "'see #12'", "'a -- b'", "'50 % off'"]
+            "'Order # 5'", "'a # b'", "'#fff'", "'see #12'", "'a -- b'", "'50 % off'", "'00420'", "'123'"]
 NLIT = len(LITERALS)
 NUMBERS = ["0", "1", "4", "10", "007", "00", "0012", "123456", "9223372036854775808"]
 NNUM = len(NUMBERS)
@@ -178,6 +178,8 @@ POSITIONS = [
     ("location option", "CREATE TABLE t (p int, q int) LOCATION {L};", lambda r: r[0]["table_properties"]["location"]),
     ("column check", "CREATE TABLE t (p varchar(9) CHECK (p <> {L}), q int);", lambda r: r[0]["columns"][0]["check"][len("p <> "):]),
     ("named table check", "CREATE TABLE t (p varchar(9), q int, CONSTRAINT c CHECK (p <> {L}));", lambda r: r[0]["checks"][0]["statement"][len("p <> "):]),
+    ("ALTER ADD DEFAULT FOR (column default)", "CREATE TABLE t (p int, k varchar(20), q int);\nALTER TABLE t ADD CONSTRAINT d DEFAULT {L} FOR k;", lambda r: r[0]["columns"][1]["default"]),
+    ("ALTER ADD DEFAULT FOR (alter section)", "CREATE TABLE t (p int, k varchar(20), q int);\nALTER TABLE t ADD CONSTRAINT d DEFAULT {L} FOR k;", lambda r: r[0]["alter"]["defaults"][0]["value"]),
 ]
 NPOS = len(POSITIONS)
 PI = env_int("VF_PI", -1)
